@@ -93,7 +93,16 @@ let run (sc : scenario) : string =
       let tr = s'.Sim.y_log in
       LL.iteri (fun i e -> if i >= !nlog then add ("LOG " ^ c_log e ^ "\n")) tr;
       nlog := LL.length tr;
-      if !verbose then add ("STATE " ^ c_simstate s' ^ "\n") else add ("STATE " ^ fnv (c_simstate s') ^ "\n")
+      if !verbose then add ("STATE " ^ c_simstate s' ^ "\n") else add ("STATE " ^ fnv (c_simstate s') ^ "\n");
+      (* plain facts for the monitors: clock, live queue size and earliest live time; counters *)
+      let live = SimInst.y_dump s' in
+      add (Printf.sprintf "Q %s %d %s\n" (sn s'.Sim.y_q.Sim.q_clock) (LL.length live)
+             (match live with e :: _ -> sn e.Sim.q_time | [] -> "-"));
+      add ("CNT " ^ cat " " (LL.concat (LL.map (fun (_, nd) ->
+          LL.map (fun (pn, pe) ->
+              Printf.sprintf "%s:%s:%s:%d:%d" (sn pn) (sn pe.Log.pe_sent) (sn pe.Log.pe_recv)
+                (LL.length pe.Log.pe_outbox) (LL.length pe.Log.pe_evlog)) nd.Sim.sd_procs) s'.Sim.y_nodes)) ^ "\n");
+      add (Printf.sprintf "NC %s %s\n" (sn s'.Sim.y_net.Sim.sn_net_count) (sn s'.Sim.y_net.Sim.sn_traffic))
   in
   (try
      LL.iteri (fun idx line ->
